@@ -117,7 +117,7 @@ class Last:
 
 
 def random_spec(rng: random.Random, *, variants=None, autos='random', mode=None, max_n=None, stacks='mixed',
-                boards=(1, 1, 1, 2), rake_p=0.15, ante_p=0.5, straddle_p=0.2, no_autos=(), via_phh=False, chips=None) -> dict:
+                boards=(1, 1, 1, 2), rake_p=0.15, ante_p=0.5, straddle_p=0.2, no_autos=(), via_phh=False, chips=None, force_boards0=None) -> dict:
     v = rng.choice(variants or list(VARIANTS))
     fam = VARIANTS[v][2]
     kind = VARIANTS[v][1]
@@ -219,6 +219,8 @@ def random_spec(rng: random.Random, *, variants=None, autos='random', mode=None,
     spec['boards0'] = rng.choice(boards) if fam == 'flop' and v != 'NR' else 1
     if fam == 'flop' and spec['boards0'] == 2 and n > 6:
         spec['boards0'] = 1
+    if force_boards0:
+        spec['boards0'] = force_boards0
     if rng.random() < rake_p:
         spec['rake'] = {'num': rng.choice([1, 1, 5, 10]), 'den': rng.choice([20, 10, 100]), 'cap': rng.choice([-1, 3, 10]),
                         'nfnd': rng.random() < 0.5}
